@@ -224,7 +224,7 @@ def run(ctx: Ctx) -> None:
     install_audit()
     with Taps(ctx) as taps:
         install(taps, ctx)
-        for idx in ctx.indices("datasets", 160 if ctx.quick else 4000):
+        for idx in ctx.indices("datasets", 160 if ctx.quick else 60000):
             r = ctx.rng("datasets", idx)
             task = ["detection", "tracking", "sensing", "fp_validation"][idx % 4]
             spec, info = gen_dataset(r, task)
